@@ -123,7 +123,9 @@ class FortranRegularExpressions:
     FREE_OPENMP: Pattern = compile(r"[ ]*!\$OMP", I)
     FREE_FORMAT_TEST: Pattern = compile(r"[ ]{1,4}[a-z]", I)
     # Preprocessor matching rules
-    DEFINED: Pattern = compile(r"defined[ ]*\(?[ ]*([a-z_]\w*)[ ]*\)?", I)
+    DEFINED: Pattern = compile(
+        r"defined[ ]*(\()?[ ]*(?P<name>[a-z_]\w*)(?(1)[ ]*\))", I
+    )
     PP_REGEX: Pattern = compile(r"[ ]*#[ ]*(if |ifdef|ifndef|else|elif|endif)", I)
     PP_DEF: Pattern = compile(
         r"[ ]*#[ ]*(define|undef|undefined)[ ]*(\w+)(\([ ]*([ \w,]*?)[ ]*\))?",
